@@ -152,6 +152,7 @@ class C13(Check):
         RM.get_terminal_size = lambda: __import__("os").terminal_size((80, 24))
         RM.sleep = lambda s: None
         n = 2 if shape["animated"] else 1
+        finalizer_fails = bool(eng.bool("render_data_finalizer_fails"))
 
         class Out:
             def __init__(s):
@@ -179,6 +180,13 @@ class C13(Check):
             def _render_(s, render_data, render_args):
                 pty._syscall("render", lambda: None)
                 return Frame(0, 1, G.Size(1, 1), "x")
+
+            @classmethod
+            def _finalize_render_data_(cls, render_data):
+                # the render class's own clean-up hook may fail: the terminal is restored all the same
+                super()._finalize_render_data_(render_data)
+                if finalizer_fails:
+                    raise OSError("releasing the render data failed")
 
         old = sys.stdout
         sys.stdout = Out()
